@@ -87,6 +87,9 @@ class ProblemWrapper(Problem):
     def worse_than(self, first_fitness, second_fitness):
         return self._inner.worse_than(first_fitness, second_fitness)
 
+    def equivalent(self, first_fitness, second_fitness):
+        return self._inner.equivalent(first_fitness, second_fitness)
+
     @property
     def bounds(self) -> np.ndarray:
         return self._inner.bounds
